@@ -1,10 +1,10 @@
 (* C14 -- proofs about the model of transportation_1d.cpp (coq/Transp1d.v).
    A. prefix sums            B. computeSolution: interval sweep (sums, visited pairs)
    C. flushPositions / run: invariants of the positions p
-   D. sorter: permutation facts, plans and assignments mapped back to the original indices
-   E. computeAssignment / convertAssignmentBack at machine level (no out-of-bounds access)
-   F. termination of the push loop (fuel suffices)
-   G. top-level statements about solve / assign *)
+   D. sorter: permutation facts, plans mapped back to the original indices, solve_valid
+   E. computeAssignment / convertAssignmentBack at machine level (no out-of-bounds access), assign theorems,
+      F11 witness for the unchanged convertAssignmentBack
+   Termination of the push loop is in Transp1dTerm.v, the optimality certificate in Transp1dCert.v. *)
 From Coq Require Import List ZArith Lia Bool Arith.
 Import ListNotations.
 Require Import CV.Transp1d.
